@@ -693,11 +693,15 @@ type Mode int
 const (
 	ModeInt Mode = iota
 	ModeBV
+	ModeReal // Int encoding for integers, floats as reals with the standard rounding-error model
 )
 
 func (m Mode) String() string {
 	if m == ModeBV {
 		return "bv"
+	}
+	if m == ModeReal {
+		return "real"
 	}
 	return "int"
 }
@@ -718,10 +722,18 @@ type smtPrinter struct {
 	wraps   map[string]bool
 	funs    map[string]bool
 	nq      int
+	relaxed bool
+	side    []string // side conditions of the relaxed float model (no overflow, no division by zero): proved with the goal
+	nfp     int
 }
 
 func newSmtPrinter(mode Mode) *smtPrinter {
-	return &smtPrinter{mode: mode, declSet: map[string]bool{}, names: map[*Term]string{}, refs: map[*Term]int{}, sorts: map[string]bool{}, wraps: map[string]bool{}, funs: map[string]bool{}}
+	relaxed := false
+	if mode == ModeReal {
+		mode = ModeInt
+		relaxed = true
+	}
+	return &smtPrinter{relaxed: relaxed, mode: mode, declSet: map[string]bool{}, names: map[*Term]string{}, refs: map[*Term]int{}, sorts: map[string]bool{}, wraps: map[string]bool{}, funs: map[string]bool{}}
 }
 
 func (p *smtPrinter) sort(s *Sort) string {
@@ -736,6 +748,9 @@ func (p *smtPrinter) sort(s *Sort) string {
 	case SMath:
 		return "Int"
 	case SFP:
+		if p.relaxed {
+			return "Real"
+		}
 		return "(_ FloatingPoint 11 53)"
 	case SArray:
 		return "(Array " + p.sort(s.Idx) + " " + p.sort(s.Elem) + ")"
@@ -922,6 +937,9 @@ func (p *smtPrinter) pr1(t *Term, bound map[string]bool, bc map[*Term]bool) stri
 			}
 			return "false"
 		case SFP:
+			if p.relaxed {
+				return realLit(t.F)
+			}
 			return fpLit(t.F)
 		case SGoInt:
 			if p.mode == ModeBV {
@@ -938,45 +956,14 @@ func (p *smtPrinter) pr1(t *Term, bound map[string]bool, bc map[*Term]bool) stri
 		return p.declVar(t)
 	case "not", "and", "or", "=>", "ite", "=", "distinct":
 		return nary(t.Op)
-	case "feq":
-		return nary("fp.eq")
-	case "flt":
-		return nary("fp.lt")
-	case "fle":
-		return nary("fp.leq")
-	case "fadd", "fsub", "fmul", "fdiv":
-		return "(fp." + t.Op[1:] + " RNE " + rec(t.Args[0]) + " " + rec(t.Args[1]) + ")"
-	case "fneg":
-		return nary("fp.neg")
-	case "fabs":
-		return nary("fp.abs")
-	case "fsqrt":
-		return "(fp.sqrt RNE " + rec(t.Args[0]) + ")"
-	case "fceil":
-		return "(fp.roundToIntegral RTP " + rec(t.Args[0]) + ")"
-	case "fisnan":
-		return nary("fp.isNaN")
-	case "fisinf":
-		return nary("fp.isInfinite")
-	case "i2f":
-		a := t.Args[0]
-		if p.mode == ModeBV && a.Sort.K == SGoInt {
-			if a.Sort.Signed {
-				return "((_ to_fp 11 53) RNE " + rec(a) + ")"
+	case "feq", "flt", "fle", "fadd", "fsub", "fmul", "fdiv", "fneg", "fabs", "fsqrt", "fceil", "fisnan", "fisinf", "i2f", "f2i":
+		if p.relaxed {
+			if hasBound(t, bound, bc) {
+				panic(errInexpressible{"float operation under a quantifier in the relaxed encoding"})
 			}
-			return "((_ to_fp_unsigned 11 53) RNE " + rec(a) + ")"
+			return p.prRelaxed(t, rec)
 		}
-		return "((_ to_fp 11 53) RNE (to_real " + rec(a) + "))"
-	case "f2i":
-		a := t.Args[0]
-		if p.mode == ModeBV {
-			if t.Sort.Signed {
-				return fmt.Sprintf("((_ fp.to_sbv %d) RTZ %s)", t.Sort.W, rec(a))
-			}
-			return fmt.Sprintf("((_ fp.to_ubv %d) RTZ %s)", t.Sort.W, rec(a))
-		}
-		p.helper("rtz", "(define-fun rtz ((r Real)) Int (ite (>= r 0.0) (to_int r) (- (to_int (- r)))))")
-		return "(" + p.wrapFn(t.Sort) + " (rtz (fp.to_real " + rec(a) + ")))"
+		return p.prFP(t, rec, nary)
 	case "select":
 		s := nary("select")
 		if p.mode == ModeInt && t.Sort.K == SGoInt {
@@ -1043,6 +1030,135 @@ func (p *smtPrinter) pr1(t *Term, bound map[string]bool, bc map[*Term]bool) stri
 	}
 	return p.prInt(t, rec)
 }
+
+func (p *smtPrinter) prFP(t *Term, rec func(*Term) string, nary func(string) string) string {
+	switch t.Op {
+	case "feq":
+		return nary("fp.eq")
+	case "flt":
+		return nary("fp.lt")
+	case "fle":
+		return nary("fp.leq")
+	case "fadd", "fsub", "fmul", "fdiv":
+		return "(fp." + t.Op[1:] + " RNE " + rec(t.Args[0]) + " " + rec(t.Args[1]) + ")"
+	case "fneg":
+		return nary("fp.neg")
+	case "fabs":
+		return nary("fp.abs")
+	case "fsqrt":
+		return "(fp.sqrt RNE " + rec(t.Args[0]) + ")"
+	case "fceil":
+		return "(fp.roundToIntegral RTP " + rec(t.Args[0]) + ")"
+	case "fisnan":
+		return nary("fp.isNaN")
+	case "fisinf":
+		return nary("fp.isInfinite")
+	case "i2f":
+		a := t.Args[0]
+		if p.mode == ModeBV && a.Sort.K == SGoInt {
+			if a.Sort.Signed {
+				return "((_ to_fp 11 53) RNE " + rec(a) + ")"
+			}
+			return "((_ to_fp_unsigned 11 53) RNE " + rec(a) + ")"
+		}
+		return "((_ to_fp 11 53) RNE (to_real " + rec(a) + "))"
+	case "f2i":
+		a := t.Args[0]
+		if p.mode == ModeBV {
+			if t.Sort.Signed {
+				return fmt.Sprintf("((_ fp.to_sbv %d) RTZ %s)", t.Sort.W, rec(a))
+			}
+			return fmt.Sprintf("((_ fp.to_ubv %d) RTZ %s)", t.Sort.W, rec(a))
+		}
+		p.helper("rtz", "(define-fun rtz ((r Real)) Int (ite (>= r 0.0) (to_int r) (- (to_int (- r)))))")
+		return "(" + p.wrapFn(t.Sort) + " (rtz (fp.to_real " + rec(a) + ")))"
+	}
+	panic("prFP: " + t.Op)
+}
+
+
+func realLit(f float64) string {
+	if math.IsNaN(f) || math.IsInf(f, 0) {
+		panic(errInexpressible{"non-finite float constant in the relaxed encoding"})
+	}
+	r := new(big.Rat)
+	r.SetFloat64(f)
+	num, den := r.Num(), r.Denom()
+	n := num.String()
+	if num.Sign() < 0 {
+		n = "(- " + new(big.Int).Neg(num).String() + ".0)"
+	} else {
+		n += ".0"
+	}
+	if den.Cmp(big.NewInt(1)) == 0 {
+		return n
+	}
+	return "(/ " + n + " " + den.String() + ".0)"
+}
+
+// prRelaxed: floats as reals. Every rounding operation yields a fresh real r related to the exact result e by
+// |r - e| <= |e|*2^-53 + 2^-1075 (round-to-nearest, normal and subnormal range); the side conditions "no overflow"
+// and "no division by zero" are collected and must be proved together with the goal.
+func (p *smtPrinter) prRelaxed(t *Term, rec func(*Term) string) string {
+	a := func(i int) string { return rec(t.Args[i]) }
+	p.helper("fpabs", "(define-fun fpabs ((x Real)) Real (ite (>= x 0.0) x (- x)))")
+	p.helper("fprnd", "(define-fun fprnd ((e Real) (r Real)) Bool (and (<= (- e (+ (* (fpabs e) (/ 1.0 9007199254740992.0)) (/ 1.0 "+pow2(1075)+".0))) r) (<= r (+ e (+ (* (fpabs e) (/ 1.0 9007199254740992.0)) (/ 1.0 "+pow2(1075)+".0))))))")
+	maxf := "179769313486231570814527423731704356798070567525844996598917476803157260780028538760589558632766878171540458953514382464234321326889464182768467546703537516986049910576551282076245490090389328944075868508455133942304583236903222948165808559332123348274797826204144723168738177180919299881250404026184124858368.0"
+	round := func(e string) string {
+		p.nfp++
+		r := fmt.Sprintf("fp!%d", p.nfp)
+		ev := fmt.Sprintf("fpe!%d", p.nfp)
+		p.defs = append(p.defs, fmt.Sprintf("(define-fun %s () Real %s)", ev, e), fmt.Sprintf("(declare-fun %s () Real)", r), fmt.Sprintf("(assert (fprnd %s %s))", ev, r))
+		p.side = append(p.side, fmt.Sprintf("(<= (fpabs %s) %s)", ev, maxf))
+		return r
+	}
+	switch t.Op {
+	case "feq":
+		return "(= " + a(0) + " " + a(1) + ")"
+	case "flt":
+		return "(< " + a(0) + " " + a(1) + ")"
+	case "fle":
+		return "(<= " + a(0) + " " + a(1) + ")"
+	case "fadd":
+		return round("(+ " + a(0) + " " + a(1) + ")")
+	case "fsub":
+		return round("(- " + a(0) + " " + a(1) + ")")
+	case "fmul":
+		return round("(* " + a(0) + " " + a(1) + ")")
+	case "fdiv":
+		d := a(1)
+		p.side = append(p.side, "(not (= "+d+" 0.0))")
+		return round("(/ " + a(0) + " " + d + ")")
+	case "fneg":
+		return "(- " + a(0) + ")"
+	case "fabs":
+		return "(fpabs " + a(0) + ")"
+	case "fceil":
+		return "(- (to_real (to_int (- " + a(0) + "))))"
+	case "fsqrt":
+		p.nfp++
+		r := fmt.Sprintf("fp!%d", p.nfp)
+		e := a(0)
+		p.side = append(p.side, "(>= "+e+" 0.0)")
+		p.defs = append(p.defs, fmt.Sprintf("(declare-fun %s () Real)", r),
+			fmt.Sprintf("(assert (and (>= %s 0.0) (<= (* %s %s) (* %s (+ 1.0 (/ 1.0 2251799813685248.0)))) (>= (* %s %s) (* %s (- 1.0 (/ 1.0 2251799813685248.0))))))", r, r, r, e, r, r, e))
+		return r
+	case "fisnan", "fisinf":
+		return "false"
+	case "i2f":
+		x := "(to_real " + a(0) + ")"
+		if t.Args[0].Sort.K == SGoInt && t.Args[0].Sort.W <= 32 {
+			return x // exact
+		}
+		return round(x)
+	case "f2i":
+		p.helper("rtz", "(define-fun rtz ((r Real)) Int (ite (>= r 0.0) (to_int r) (- (to_int (- r)))))")
+		return "(" + p.wrapFn(t.Sort) + " (rtz " + a(0) + "))"
+	}
+	panic("prRelaxed: " + t.Op)
+}
+
+func pow2(n int) string { return new(big.Int).Lsh(big.NewInt(1), uint(n)).String() }
 
 func (p *smtPrinter) prInt(t *Term, rec func(*Term) string) string {
 	s := t.Sort
@@ -1137,10 +1253,79 @@ func (p *smtPrinter) prInt(t *Term, rec func(*Term) string) string {
 			}
 		}
 		return p.bridge(t, rec)
-	case "bor", "bxor", "bandnot", "bnot":
+	case "bor":
+		if sum, ok := p.disjointOr(t, rec); ok {
+			return sum
+		}
+		return p.bridge(t, rec)
+	case "bxor", "bandnot", "bnot":
 		return p.bridge(t, rec)
 	}
 	panic("prInt: unknown op " + t.Op)
+}
+
+// disjointOr recognises  (x0 << k0) | (x1 << k1) | ...  where the xi are zero-extended narrower unsigned values
+// occupying pairwise disjoint bit ranges inside the word: the result is the sum  x0*2^k0 + x1*2^k1 + ...
+func (p *smtPrinter) disjointOr(t *Term, rec func(*Term) string) (string, bool) {
+	s := t.Sort
+	var leaves []*Term
+	var collect func(x *Term)
+	collect = func(x *Term) {
+		if x.Op == "bor" && sameSort(x.Sort, s) {
+			collect(x.Args[0])
+			collect(x.Args[1])
+			return
+		}
+		leaves = append(leaves, x)
+	}
+	collect(t)
+	type piece struct {
+		x *Term
+		k int
+		w int
+	}
+	var ps []piece
+	used := make([]bool, s.W)
+	for _, l := range leaves {
+		k := 0
+		x := l
+		if x.Op == "shl" && x.Args[1].isConst() && x.Args[1].Val.IsInt64() && x.Args[1].Val.Sign() >= 0 {
+			k = int(x.Args[1].Val.Int64())
+			x = x.Args[0]
+		}
+		if x.isConst() && x.Val.Sign() == 0 {
+			continue
+		}
+		if x.Op != "conv" || x.Args[0].Sort.K != SGoInt || x.Args[0].Sort.Signed {
+			return "", false
+		}
+		w := x.Args[0].Sort.W
+		if k+w > s.W || (s.Signed && k+w == s.W) {
+			return "", false
+		}
+		for b := k; b < k+w; b++ {
+			if used[b] {
+				return "", false
+			}
+			used[b] = true
+		}
+		ps = append(ps, piece{x.Args[0], k, w})
+	}
+	if len(ps) == 0 {
+		return "0", true
+	}
+	var parts []string
+	for _, pc := range ps {
+		if pc.k == 0 {
+			parts = append(parts, rec(pc.x))
+		} else {
+			parts = append(parts, "(* "+rec(pc.x)+" "+pow2(pc.k)+")")
+		}
+	}
+	if len(parts) == 1 {
+		return parts[0], true
+	}
+	return "(+ " + strings.Join(parts, " ") + ")", true
 }
 
 // bridge prints a bit-level operation in Int mode through int2bv/bv2nat.
@@ -1281,6 +1466,12 @@ func (p *smtPrinter) prBV(t *Term, rec func(*Term) string) string {
 		cs := c.Sort
 		var cnt string
 		switch {
+		case c.isConst() && c.Val.Sign() >= 0:
+			n := c.Val
+			if n.Cmp(big.NewInt(int64(s.W))) > 0 {
+				n = big.NewInt(int64(s.W))
+			}
+			cnt = p.bvLit(n, s.W)
 		case cs.W == s.W:
 			cnt = rec(c)
 		case cs.W < s.W:
@@ -1376,15 +1567,30 @@ func buildScript(mode Mode, facts []*Term, goal *Term, values []*Term, forCVC5 b
 			collectBound(f, bound, bs)
 		}
 		bc := map[*Term]bool{}
-		for _, f := range all {
+		goalIdx := -1
+		for i, f := range all {
 			if f.isTrue() {
 				continue
+			}
+			if i == len(all)-1 {
+				goalIdx = len(asserts)
 			}
 			asserts = append(asserts, "(assert "+p.pr(f, bound, bc)+")")
 		}
 		var vals []string
 		for _, v := range values {
 			vals = append(vals, p.pr(v, bound, bc))
+		}
+		if p.relaxed && len(p.side) > 0 {
+			// replace (not goal) by: not (goal /\ side conditions)
+			sideNeg := "(not (and " + strings.Join(p.side, " ") + "))"
+			if goalIdx >= 0 {
+				last := asserts[goalIdx]
+				inner := strings.TrimSuffix(strings.TrimPrefix(last, "(assert "), ")")
+				asserts[goalIdx] = "(assert (or " + inner + " " + sideNeg + "))"
+			} else {
+				asserts = append(asserts, "(assert "+sideNeg+")")
+			}
 		}
 		var sb strings.Builder
 		if forCVC5 {
